@@ -40,6 +40,9 @@ def explore(res, tag, subjects, phases=None, kind_to_key=None, derive_dep=None, 
         if not failures:
             break
         bad = {}
+        if derive_dep and derive_extern is None and "checked_derive" in derive_dep:
+            import e4
+            derive_extern = e4.externs()
         for bname, _stderr in failures:
             idxs = next(g for (n, g, _b) in batches if n == bname)
             f = compile_failures(active, idxs, derive_extern)
